@@ -818,7 +818,7 @@ class C15(PropBase):
             for i, line, r in zip(idx, lines, res):
                 compared += 1
                 view = line.split("\t")[1]
-                mview, ok, mconf, wf, rconf, rwid, mpretty, pok = ((r or "").split("\t") + [""] * 8)[:8]
+                mview, ok, mconf, wf, rconf, rwid, mpretty, pok, rcons = ((r or "").split("\t") + [""] * 9)[:9]
                 spi = self.split(answers[i])
                 # the pretty bytes the model must reproduce: print_json(pretty = true)'s own bytes whenever the view is the whole
                 # document (nothing removed), else the harness's to_string_pretty of the view
@@ -832,6 +832,9 @@ class C15(PropBase):
                 if mconf != hconf:
                     what = ("correspondence: confidence of the reported bit flips — the exact binary32 model (C19) computes bits [%s] from the "
                             "details the report prints, the state holds [%s]" % (mconf, hconf))
+                elif ok == "1" and rcons != "1":
+                    what = ("self-consistency: the Gallina checker [consistent] (theorem c15_consistent: counts, frame numbers, missing_symbols, the crashing_thread "
+                            "copy = the indexed thread + threads_index + registers in frame 0 only, num_records) rejects the real print_json document")
                 elif mview != view:
                     what = "correspondence: the model's rendering of the modelled fields differs from print_json's"
                 elif mpretty != want_pretty:
